@@ -6,8 +6,12 @@ OutVs == {"expl", "conf", "confnw"}
 Txs == IF Tier = "quick"
        THEN { MkSigTx(iv, ov) : iv \in { <<"plain">>, <<"issueC">>, <<"pegin", "issue">>, <<"reissue", "plain">>, <<"issue", "pegin", "plain">>, <<"coinb">> },
                                 ov \in { << >>, <<"conf">>, <<"expl", "conf">>, <<"confnw", "expl", "fee">> } }
-       ELSE { MkSigTx(iv, ov) : iv \in SeqsOf(InVs, 1, 2) \cup { <<"issue", "pegin", "plain">>, <<"reissue", "issueC", "pegin">>, <<"coinb">> },
-                                ov \in SeqsOf(OutVs, 0, 2) \cup { <<"confnw", "expl", "fee">> } }
+       \* (every single input kind, ten pairs, two triples x every output list of length <= 1, four pairs, a triple: the full
+       \* product of all pairs with all pairs takes TLC's constant evaluator hours without adding a new kind of position)
+       ELSE { MkSigTx(iv, ov) : iv \in SeqsOf(InVs, 1, 1) \cup { <<"plain", "plain">>, <<"pegin", "issue">>, <<"issue", "pegin">>, <<"reissue", "plain">>, <<"plain", "reissue">>,
+                                                          <<"issueC", "issueC">>, <<"issueC", "plain">>, <<"pegin", "pegin">>, <<"issue", "reissue">>, <<"reissue", "issueC">>,
+                                                          <<"issue", "pegin", "plain">>, <<"reissue", "issueC", "pegin">>, <<"coinb">> },
+                                ov \in SeqsOf(OutVs, 0, 1) \cup { <<"expl", "conf">>, <<"conf", "expl">>, <<"confnw", "conf">>, <<"conf", "conf">>, <<"confnw", "expl", "fee">> } }
 TapV == IF Tier = "quick" THEN TapFew ELSE TapAll
 QueryCase(st, q) ==
   LET o == Outcome(st.tx, st.prevs, q) IN
